@@ -84,14 +84,18 @@ namespace nmtools::index
             // TODO: provide overload that already compute strides
             auto strides = compute_strides(shape);
             auto dst_i   = at(index,0);
-            auto offset  = at(indices,dst_i);
+            // a negative entry counts from the end of the flattened array (numpy)
+            auto entry   = (nm_index_t)at(indices,dst_i);
+            auto offset  = (nm_size_t)((entry < 0) ? entry + (nm_index_t)product(shape) : entry);
             impl::compute_indices(res, offset, shape, strides);
         }
         else {
             auto take_impl = [&](auto i){
                 auto dst_i = at(index,i);
                 using common_t = meta::promote_index_t<axis_t,decltype(i)>;
-                at(res, i) = ((common_t)i == (common_t)axis) ? at(indices,dst_i) : dst_i;
+                // a negative entry counts from the end of the axis (numpy); only the taken axis reads indices
+                auto wrap = [&](nm_index_t e){ return (e < 0) ? e + (nm_index_t)at(shape,i) : e; };
+                at(res, i) = ((common_t)i == (common_t)axis) ? wrap(at(indices,dst_i)) : (nm_index_t)dst_i;
             };
             if constexpr (meta::is_fixed_index_array_v<index_t>) {
                 constexpr auto DIM = meta::len_v<index_t>;
